@@ -129,9 +129,9 @@ def lean_audit():
         text = p.stdout + p.stderr
         res = {"__ok__": p.returncode == 0, "__log__": text[-3000:] if p.returncode != 0 else ""}
         # "'Foo.bar' depends on axioms: [propext, Quot.sound]" | "'Foo.bar' does not depend on any axioms"
-        for m in re.finditer(r"'([^']+)' depends on axioms: \[([^\]]*)\]", text, flags=re.S):
+        for m in re.finditer(r"'([^\n]+?)' depends on axioms: \[([^\]]*)\]", text, flags=re.S):
             res[m.group(1)] = [a.strip() for a in m.group(2).replace("\n", " ").split(",") if a.strip()]
-        for m in re.finditer(r"'([^']+)' does not depend on any axioms", text):
+        for m in re.finditer(r"'([^\n]+?)' does not depend on any axioms", text):
             res[m.group(1)] = []
         with open(cache, "w") as fh:
             json.dump(res, fh)
